@@ -98,6 +98,10 @@ def describe(v, depth=0):
         return 'module:' + v.__name__
     if isinstance(v, float):
         return 'float:' + repr(v)
+    if isinstance(v, int) and not isinstance(v, bool) and v.bit_length() > 8000:
+        return 'int:bits=%d:residue=%d' % (v.bit_length(), v % 2305843009213693951)      # repr() of such a value raises in 3.12
+    if isinstance(v, (str, bytes)) and len(v) > 100000:
+        return '%s:len=%d:hash=%s' % (type(v).__name__, len(v), hash(v))
     if v is None or isinstance(v, (bool, int, str, bytes, complex)):
         return type(v).__name__ + ':' + repr(v)
     if isinstance(v, (list, tuple)):
@@ -117,6 +121,19 @@ def describe(v, depth=0):
         return 'object:' + type(v).__name__
 
 
+class TooMuchOutput(BaseException):
+    """The generated program prints megabytes (a doubling string in a loop): not a case worth comparing, and never a verdict."""
+
+
+class BoundedOut(io.StringIO):
+    LIMIT = 2_000_000
+
+    def write(self, s):
+        if self.tell() + len(s) > self.LIMIT:
+            raise TooMuchOutput()
+        return super().write(s)
+
+
 def reference_run(src, inputs, ns=None):
     q = list(inputs)
 
@@ -128,7 +145,7 @@ def reference_run(src, inputs, ns=None):
     if ns is None:
         ns = {'__name__': '__main__'}
     ns['__builtins__'] = b
-    buf = io.StringIO()
+    buf = BoundedOut()
     exc = None
     line = None
     real_sleep = time.sleep
@@ -137,6 +154,8 @@ def reference_run(src, inputs, ns=None):
         with contextlib.redirect_stdout(buf):
             try:
                 exec(compile(src, 'answer.py', 'exec'), ns)
+            except TooMuchOutput:
+                raise
             except BaseException as e:
                 exc = e
                 tb = traceback.extract_tb(e.__traceback__)
@@ -174,7 +193,14 @@ def check_program(ctx, case):
     from pedal.core.report import MAIN_REPORT
     from pedal.sandbox import commands as sbx
     src, inputs, functions = case['src'], case['inputs'], case['functions']
-    ref_ns, ref_out, ref_exc, ref_line, ref_left = reference_run(src, inputs)
+    try:
+        ref_ns, ref_out, ref_exc, ref_line, ref_left = reference_run(src, inputs)
+    except TooMuchOutput:
+        ctx.count('programs_skipped_(reference_prints_megabytes)')
+        return
+    if isinstance(ref_exc, MemoryError):
+        ctx.count('programs_skipped_(reference_runs_out_of_memory)')
+        return
     clear_report()
     contextualize_report(src)
     try:
@@ -227,7 +253,10 @@ def check_program(ctx, case):
                     'sandbox': {'output': out[-200:], 'exception': got}})
     # ---- the same program again with another input queue (the first one may have left unread inputs) ----
     if 'input(' in src and case.get('inputs2') is not None:
-        ref_ns2, ref_out2, ref_exc2, ref_line2, ref_left2 = reference_run(src, case['inputs2'], ns=ref_ns)   # the sandbox namespace persists too
+        try:
+            ref_ns2, ref_out2, ref_exc2, ref_line2, ref_left2 = reference_run(src, case['inputs2'], ns=ref_ns)   # the sandbox namespace persists too
+        except TooMuchOutput:
+            return
         sbx.clear_output()
         try:
             sbx.run(inputs=list(case['inputs2']))
@@ -348,7 +377,10 @@ def subprocess_validate(ctx, src, inputs):
             f.write(src)
         p = subprocess.run([sys.executable, 'answer.py'], cwd=d, input=''.join(i + '\n' for i in inputs) + '0\n' * 20,
                            stdout=subprocess.PIPE, stderr=subprocess.PIPE, text=True, timeout=30)
-        _, ref_out, ref_exc, _, _ = reference_run(src, inputs)
+        try:
+            _, ref_out, ref_exc, _, _ = reference_run(src, inputs)
+        except TooMuchOutput:
+            return
         # a real input() writes the prompt without newline: normalise both by dropping prompts is not possible in general;
         # only programs without input() are validated
         if 'input(' in src:
